@@ -497,11 +497,19 @@ def auth_strategy():
         'form': st.sampled_from(['dict', 'dict', 'call0', 'call1']),
         'realm': st.sampled_from(REALMS),
         'method': st.sampled_from(METHODS),
-        'challenge': st.sampled_from(['basic', 'digest']),
+        'challenge': st.sampled_from(['match', 'match', 'match', 'basic', 'digest']),
         'encrypt': st.sampled_from(['str', 'str', 'md5', 'salt', 'none']),
         'idiom': st.sampled_from(['check', 'tool']),
         'hdr': header_strategy(),
-    })
+    }).map(_resolve_challenge)
+
+
+def _resolve_challenge(spec):
+    """'match': the controller challenges with the scheme the header answers (the ordinary case); otherwise cross-scheme."""
+    if spec['challenge'] == 'match':
+        k = spec['hdr']['kind']
+        spec = dict(spec, challenge=k if k in ('basic', 'digest') else 'digest')
+    return spec
 
 
 # =====================================================================================================
@@ -755,7 +763,7 @@ class C20(Prop):
                 header, realm, method, challenge, enc_name, spec['form'], table, verdict, label)
             if verdict == 'refuse':
                 if granted:
-                    return Result(False, 'granted-without-credentials:' + _bucket(label, spec),
+                    return Result(False, 'granted-without-credentials:' + _bucket(header, table),
                                   '%s granted access (%s) but the header does not verify: %s' % (where, note, ctx),
                                   nontrivial, classes)
                 if login not in (None, False):
@@ -997,12 +1005,24 @@ def _names_user(header):
     return False
 
 
-def _bucket(label, spec):
+def _bucket(header, table):
     """Stable root-cause bucket for 'granted although the reference refuses'."""
-    h = spec['hdr']
-    if h['kind'] == 'digest':
-        return 'digest'
-    return h['kind']
+    sp = split_scheme(header or '')
+    if sp is None:
+        return 'unparsable'
+    scheme, rest, _ = sp
+    if scheme == 'digest':
+        p = dict((k.lower(), v) for k, v in parse_auth_params(rest)[0])
+        if any(k not in p for k in ('username', 'realm', 'nonce', 'uri', 'response')) or \
+                ('qop' in p) != ('nc' in p and 'cnonce' in p) or ('qop' not in p and ('nc' in p or 'cnonce' in p)):
+            return 'digest-incomplete'
+        return 'digest' if p['username'] in table else 'digest-unknown-user'
+    if scheme == 'basic':
+        for raw, _ in _b64_readings(rest):
+            if b':' in raw and raw.split(b':', 1)[0].decode('utf-8', 'replace') in table:
+                return 'basic'
+        return 'basic-unknown-user'
+    return 'other-scheme'
 
 
 PROP = C20()
